@@ -221,7 +221,7 @@ def D(e, v):
         if name == "atan": return du / (1 + u * u)
         if name == "asin": return du / sqrt(1 - u * u)
         if name == "acos": return -du / sqrt(1 - u * u)
-        if name in ("floor", "sign"): return const(0)
+        if name in ("floor", "sign", "isfinite", "isnan", "isinf", "ceil", "rint", "trunc", "round", "fix", "signbit", "heaviside"): return const(0)   # locally constant
         if name == "abs": return sign(u) * du
         if name == "atan2":  # numpy arctan2(x1, x2) = angle of (x2, x1)
             w = e.a[2]
